@@ -1093,7 +1093,7 @@ func r19FreshView(c *core.Ctx, p *load.Program, n *types.Named) {
 		key := typeKey(n) + "." + mn + "|never-returns-the-receiver"
 		bad := ""
 		for _, r := range ssax.Returns(fn) {
-			v := r.Results[0]
+			v := resolveSpilled(r.Results[0], r) // functions with defer return through result cells
 			for i := 0; i < 3; i++ {
 				switch x := v.(type) {
 				case *ssa.MakeInterface:
